@@ -53,15 +53,15 @@ structure Tok where
   value : List Char
 deriving DecidableEq, Repr
 
-def lt : List Char := ['<']
-def gt : List Char := ['>']
-def capL : List Char := ['L']
+abbrev lt : List Char := ['<']
+abbrev gt : List Char := ['>']
+abbrev capL : List Char := ['L']
 
 /-- Python `value in "<>"` for a string value (substring test) -/
 def inLtGt (v : List Char) : Bool := v == [] || v == lt || v == gt || v == ['<', '>']
 
 /-- `getattr(data_items, name, None) is not None` -/
-def attrKnown (n : List Char) : Bool := Gen.DataItems.moduleAttrs.contains (String.ofList n)
+def attrKnown (n : List Char) : Bool := Gen.DataItems.moduleAttrs.contains n
 
 /-- `_process_closing_token` -/
 def procClose (es : List (List Char)) : Except Err (Tok × List (List Char)) :=
@@ -141,7 +141,7 @@ deriving Repr
 def upperChar (c : Char) : Char := if 'a' ≤ c ∧ c ≤ 'z' then Char.ofNat (c.toNat - 32) else c
 def upper (s : List Char) : List Char := s.map upperChar
 
-def classKnown (n : List Char) : Bool := Gen.DataItems.moduleClasses.contains (String.ofList n)
+def classKnown (n : List Char) : Bool := Gen.DataItems.moduleClasses.contains n
 
 /-- `_generate_item_from_sfdl` -/
 def genItem (ts : List Tok) (itemName : List Char) : Except Err (Fmt × List Tok) :=
@@ -201,12 +201,14 @@ end
 
 /-! ## `generate`, `Array.__init__`, `List._generate` -/
 
-/-- the variable tree `generate` builds (an `Array` creates its elements with `generate(item_decriptor)` on demand; the model
-builds the element structure at once) -/
+/-- the variable tree `generate` builds.  An `Array` keeps its item descriptor and creates elements with
+`generate(item_decriptor)` only on demand: the model holds the element structure that call gives, or `bad e` when it would raise `e`
+(so a broken descriptor does not fail the definition, exactly as in the code) -/
 inductive Obj where
   | item (name : List Char)
   | array (name : List Char) (elem : Obj)
   | record (name : List Char) (fields : List (List Char × Obj))
+  | bad (e : Err)
 deriving Repr
 
 def dataName : List Char := ['D', 'A', 'T', 'A']
@@ -231,6 +233,16 @@ def dictSet (fields : List (List Char × Obj)) (k : List Char) (v : Obj) : List 
   | [] => [(k, v)]
   | (k', v') :: rest => if k' == k then (k, v) :: rest else (k', v') :: dictSet rest k v
 
+/-- the key `List._generate` files a member under: an `Array` under its name, a `List` under `get_name_from_format(item)`, a data
+item under its class name -/
+def memberKey (v : Obj) (x : Fmt) : Except Err (List Char) :=
+  match v, x with
+  | .array anm _, _ => .ok anm                                    -- `result_data[item_value.name]`
+  | .record _ _, .list ys => nameFromFormat ys                    -- `List.get_name_from_format(item)`
+  | .record _ _, _ => .error .typeError
+  | .item n, _ => .ok n
+  | .bad e, _ => .error e
+
 mutual
 /-- `generate(data_format)` -/
 def generate : Fmt → Except Err Obj
@@ -242,7 +254,7 @@ def generate : Fmt → Except Err Obj
     | .error e => .error e
     | .ok nm =>
       match generate x with
-      | .error e => .error e
+      | .error e => .ok (.array nm (.bad e))                       -- raised only when an element is created
       | .ok el => .ok (.array nm el)
   | .list xs =>
     match genFields xs dataName [] with
@@ -256,13 +268,7 @@ def genFields : List Fmt → List Char → List (List Char × Obj) → Except Er
     match generate x with
     | .error e => .error e
     | .ok v =>
-      let key : Except Err (List Char) :=
-        match v, x with
-        | .array anm _, _ => .ok anm                              -- `result_data[item_value.name]`
-        | .record _ _, .list ys => nameFromFormat ys              -- `List.get_name_from_format(item)`
-        | .record _ _, _ => .error .typeError
-        | .item n, _ => .ok n
-      match key with
+      match memberKey v x with
       | .error e => .error e
       | .ok k => genFields rest nm (dictSet acc k v)
 end
